@@ -2,7 +2,9 @@ import TexcraftModel.Lemmas.C06
 import TexcraftModel.Lemmas.C06Print
 import TexcraftModel.Lemmas.C06Scan
 import TexcraftModel.Lemmas.C06Glue
-import TexcraftModel.Model.C06Text
+import TexcraftModel.Lemmas.C06Text
+import TexcraftModel.Lemmas.C06Arith
+import TexcraftModel.Tables.C06MutAll
 
 /-!
 # C06 — property theorems
@@ -137,24 +139,33 @@ TeX §445 for every character, both categories (letter / other) and each radix. 
 lower-case `a`–`f` are never digits, `8` and `9` are not octal digits, and upper-case `A`–`F`
 are hexadecimal digits with either category. -/
 theorem const_digit_eq (radix : Int) (hr : radix = 10 ∨ radix = 8 ∨ radix = 16) (c : Char) (letter : Bool) :
-    constDigit radix c letter = Spec.constDigit radix c letter := by
-  unfold constDigit Spec.constDigit
-  generalize c.toNat = n
-  rcases hr with rfl | rfl | rfl <;> cases letter <;> simp <;> (repeat' split) <;>
-    first | rfl | omega | (simp; omega)
+    constDigit radix c letter = Spec.constDigit radix c letter :=
+  constDigit_eq radix hr c letter
 
 example : constDigit 16 'f' true = none ∧ constDigit 16 'F' true = some 15 ∧ constDigit 16 'F' false = some 15 ∧
     constDigit 8 '8' false = none ∧ constDigit 10 'A' false = none := by decide
 /-- C06-i at its witness: `1 .5pt` — the space ends the number, there is no fraction (the unfixed
 code, `fracAfterSpace = true`, read 1.5pt). -/
-example : (Text.parseDimen constDigit false false
+example : (Text.parseDimen constDigit true false false false
       [.ch '1' false, .space, .ch '.' false, .ch '5' false, .ch 'p' true, .ch 't' true]).head = .const 10 [1] none ∧
-    (Text.parseDimen constDigit false true
+    (Text.parseDimen constDigit true false false true
       [.ch '1' false, .space, .ch '.' false, .ch '5' false, .ch 'p' true, .ch 't' true]).head = .const 10 [1] (some [5]) := by
   decide
 
+/-- Blanks before keywords (§407): `1true pt` is one point (C06-j: before the fix, `skip = false`,
+`pt` was not found after the blank); `1fil l` is `1fill` in TeX (`skipL = true`) but `1fil` followed
+by ` l` in the code (`skipL = false`, recorded deviation C06-k). -/
+example : (Text.parseDimen constDigit true false false false
+      [.ch '1' false, .ch 't' true, .ch 'r' true, .ch 'u' true, .ch 'e' true, .space, .ch 'p' true, .ch 't' true]).unit = .phys .pt ∧
+    (Text.parseDimen constDigit false false false false
+      [.ch '1' false, .ch 't' true, .ch 'r' true, .ch 'u' true, .ch 'e' true, .space, .ch 'p' true, .ch 't' true]).unit = .bad ∧
+    (Text.parseDimen constDigit true true true false
+      [.ch '1' false, .ch 'f' true, .ch 'i' true, .ch 'l' true, .space, .ch 'l' true]).unit = .fil 1 ∧
+    (Text.parseDimen constDigit true false true false
+      [.ch '1' false, .ch 'f' true, .ch 'i' true, .ch 'l' true, .space, .ch 'l' true]).unit = .fil 0 := by decide
+
 /-- `"10bp` is sixteen big points: the `b` ends the constant. -/
-example : (Text.parseDimen constDigit false true
+example : (Text.parseDimen constDigit true false false true
     [.ch '"' false, .ch '1' false, .ch '0' false, .ch 'b' true, .ch 'p' true]).head = .const 16 [1, 0] none := by decide
 
 /-- After an overflow the value is clamped to `2^31-1` (§445 `cur_val:=infinity`), never wrapped;
@@ -320,6 +331,162 @@ theorem printed_integer_part_digits (n : Nat) (h : n < 16384) :
 example : scanGlue (scanGlueWidth false (.const 10 [1] (some [0])) (.phys .pt))
     (some (scanDimen true (.const 10 [1, 6, 3, 8, 3] (some [9, 9, 9, 9, 8])) (.fil 2))) none
     = some (⟨65536, -1073741823, 3, 0, 0⟩, 0) := by decide
+
+/-! ## The text level: the kernel theorems lifted to what the user writes
+
+`Model/C06Text.lean` reads a list of character tokens (category letter / other, space, a control
+sequence): signs and blanks, radix prefixes, digits, decimal point, the optional space, `true`,
+the units and `fil` + `l`s in either case, `plus` / `minus`. The driver executes it on the text of
+every `tint`/`tdim`/`tglue`/`tidx` case, with `parse_constant`'s digit decoding for M and §445's
+for S, and the harness compares value, errors and the text left over with the real scanner. -/
+
+/-- Integers as text: M and S cut every text identically (sign parity, radix, digits, what is
+left), and on the digits they cut the value and the error verdict agree (§440–§445). -/
+theorem scan_int_text_eq_knuth (t : List Text.Tok) :
+    Text.parseInt constDigit t = Text.parseInt Spec.constDigit t ∧
+    ∀ r ds, (Text.parseInt constDigit t).const = some (r, ds) →
+      Spec.scanInt (Text.parseInt constDigit t).neg r ds
+        = .ok (scanInt (Text.parseInt constDigit t).neg r ds).1 (scanInt (Text.parseInt constDigit t).neg r ds).2 0 := by
+  refine ⟨parseInt_congr t, ?_⟩
+  intro r ds h
+  simp only [Text.parseInt] at h
+  split at h
+  · rename_i r' ds' rest hc
+    simp only [Option.some.injEq, Prod.mk.injEq] at h
+    obtain ⟨rfl, rfl⟩ := h
+    obtain ⟨hr, hd⟩ := parseConst_digits _ _ _ _ hc
+    exact scan_int_eq r' hr ds' hd _
+  · simp at h
+
+/-- Dimensions as text, **for every token list and with no exclusion**: M and S cut the text
+identically (sign, head, unit, remainder) and `scan_dimen` on the parts = TeX §448–§460: same
+value, same number of errors, same order. (A text cannot denote a negative internal unit, so
+the recorded deviation C06-f does not arise; `em`/`ex` are positive.) -/
+theorem scan_dimen_text_eq_knuth (skip skipL glue fas : Bool) (t : List Text.Tok) :
+    Text.parseDimen constDigit skip skipL glue fas t = Text.parseDimen Spec.constDigit skip skipL glue fas t ∧
+    (scanDimen (Text.parseDimen constDigit skip skipL glue fas t).neg (Text.parseDimen constDigit skip skipL glue fas t).head
+        (Text.parseDimen constDigit skip skipL glue fas t).unit).toSR
+      = Spec.scanDimen (Text.parseDimen constDigit skip skipL glue fas t).neg (Text.parseDimen constDigit skip skipL glue fas t).head
+        (Text.parseDimen constDigit skip skipL glue fas t).unit :=
+  ⟨parseDimen_congr skip skipL glue fas t, scanDimen_text skip skipL glue fas t⟩
+
+/-- Glue as text, for every token list: same cut, and `Glue::parse_impl` on the parts = §461
+(width, stretch, shrink, both orders, the sum of the errors). -/
+theorem scan_glue_text_eq_knuth (skip skipL fas : Bool) (t : List Text.Tok) :
+    Text.parseGlue constDigit skip skipL fas t = Text.parseGlue Spec.constDigit skip skipL fas t ∧
+    scanGlue
+        (scanGlueWidth (Text.parseGlue constDigit skip skipL fas t).width.neg (Text.parseGlue constDigit skip skipL fas t).width.head
+          (Text.parseGlue constDigit skip skipL fas t).width.unit)
+        ((Text.parseGlue constDigit skip skipL fas t).plus.map fun d => scanDimen d.neg d.head d.unit)
+        ((Text.parseGlue constDigit skip skipL fas t).minus.map fun d => scanDimen d.neg d.head d.unit)
+      = Spec.scanGlue
+        (Spec.scanGlueWidth (Text.parseGlue constDigit skip skipL fas t).width.neg (Text.parseGlue constDigit skip skipL fas t).width.head
+          (Text.parseGlue constDigit skip skipL fas t).width.unit)
+        ((Text.parseGlue constDigit skip skipL fas t).plus.map fun d => Spec.scanDimen d.neg d.head d.unit)
+        ((Text.parseGlue constDigit skip skipL fas t).minus.map fun d => Spec.scanDimen d.neg d.head d.unit) :=
+  ⟨parseGlue_congr skip skipL fas t, scanGlue_text skip skipL fas t⟩
+
+/-- `\the` then scan, at the text level: the tokens `\the` writes for a legal dimension — or for
+a glue component with `pt`/`fil`/`fill`/`filll` — are cut by the scanner into exactly the printed
+parts with nothing left over, and scan to the identical value, no error, the same order. For all
+`2^31-1` values (fraction table + decimal-digit table, lifted through the token printer). -/
+theorem the_text_roundtrip (skip skipL : Bool) (s : Int) (h : -maxDimen ≤ s ∧ s ≤ maxDimen) (gl : Bool) (k : Nat) (hk : k ≤ 3)
+    (hg : gl = true ∨ k = 0) :
+    (Text.parseDimen constDigit skip skipL gl false (Text.renderToks (Spec.printScaled s) ++ Text.unitToks k)).rest = [] ∧
+    scanDimen
+        (Text.parseDimen constDigit skip skipL gl false (Text.renderToks (Spec.printScaled s) ++ Text.unitToks k)).neg
+        (Text.parseDimen constDigit skip skipL gl false (Text.renderToks (Spec.printScaled s) ++ Text.unitToks k)).head
+        (Text.parseDimen constDigit skip skipL gl false (Text.renderToks (Spec.printScaled s) ++ Text.unitToks k)).unit
+      = .ok { val := s, nerr := 0, order := k } := by
+  rw [parseDimen_rendered skip skipL s h gl k hk hg]
+  exact ⟨rfl, component_roundtrip s h k hk⟩
+
+/-- `\\the\\skip` then scan, at the text level: the tokens `Display for Glue` writes (width `pt`,
+` plus …`/` minus …` only if non-zero, with `pt`/`fil`/`fill`/`filll`) are cut by
+`Glue::parse_impl` into exactly the printed components with nothing left over, and scan to the
+identical glue with no error — for every glue whose components are legal dimensions and whose
+zero stretch/shrink has order normal. -/
+theorem the_glue_text_roundtrip (skip skipL : Bool) (g : Glue)
+    (hw : -maxDimen ≤ g.width ∧ g.width ≤ maxDimen) (hst : -maxDimen ≤ g.stretch ∧ g.stretch ≤ maxDimen)
+    (hsh : -maxDimen ≤ g.shrink ∧ g.shrink ≤ maxDimen) (ho1 : g.stretchOrder ≤ 3) (ho2 : g.shrinkOrder ≤ 3)
+    (hn1 : g.stretch = 0 → g.stretchOrder = 0) (hn2 : g.shrink = 0 → g.shrinkOrder = 0) :
+    (Text.parseGlue constDigit skip skipL false (Text.renderGlueToks g)).rest = [] ∧
+    scanGlue
+        (scanGlueWidth (Text.parseGlue constDigit skip skipL false (Text.renderGlueToks g)).width.neg
+          (Text.parseGlue constDigit skip skipL false (Text.renderGlueToks g)).width.head
+          (Text.parseGlue constDigit skip skipL false (Text.renderGlueToks g)).width.unit)
+        ((Text.parseGlue constDigit skip skipL false (Text.renderGlueToks g)).plus.map fun d => scanDimen d.neg d.head d.unit)
+        ((Text.parseGlue constDigit skip skipL false (Text.renderGlueToks g)).minus.map fun d => scanDimen d.neg d.head d.unit)
+      = some (g, 0) := by
+  obtain ⟨Rw, Rp, Rm, e⟩ := parseGlue_rendered skip skipL g hw hst hsh ho1 ho2
+  rw [e]
+  refine ⟨rfl, ?_⟩
+  have key := glue_print_scan_roundtrip g hw hst hsh ho1 ho2 hn1 hn2
+  simp only [PD]
+  by_cases h1 : g.stretch = 0 <;> by_cases h2 : g.shrink = 0 <;>
+    simp only [h1, h2, if_true, if_false, Option.map_none, Option.map_some] at key ⊢ <;> exact key
+
+example : Text.toksString (Text.renderGlueToks ⟨65536, 131072, 2, -3, 0⟩) = "1.0pt plus 2.0fill minus -0.00005pt" := by
+  decide
+
+example : Text.toksString (Text.renderToks (Spec.printScaled (-98304)) ++ Text.unitToks 0) = "-1.5pt" := by decide
+example : Text.toksString (Text.renderToks (Spec.printScaled 1073741823) ++ Text.unitToks 3) = "16383.99998filll" := by decide
+
+/-! ## Programs of primitives on one register (stream `seq`) -/
+
+/-- Invariant: whatever sequence of `\\advance`, `\\multiply`, `\\divide` (any operands) is applied
+to a `\\count` or a `\\dimen` register that holds a 32-bit value, it holds a 32-bit value after
+every step — never a value out of range, and (the model has no other outcome) never a crash. The
+number of errors is at most the number of primitives. -/
+theorem arith_program_invariant (ops : List ArithOp) (a : Int) (ha : inRange32 a) :
+    inRange32 (runReg stepInt a ops).1 ∧ inRange32 (runReg stepDimen a ops).1 ∧
+    (runReg stepInt a ops).2 ≤ ops.length ∧ (runReg stepDimen a ops).2 ≤ ops.length :=
+  ⟨runReg_range stepInt stepInt_range ops a ha, runReg_range stepDimen stepDimen_range ops a ha,
+   runReg_errors_le stepInt ops a, runReg_errors_le stepDimen ops a⟩
+
+/-- "Error and no change": a primitive that reports an error leaves the register as it was. -/
+theorem arith_error_no_change (a : Int) (op : ArithOp) (v : Int) :
+    (stepInt a op = (v, true) → v = a) ∧ (stepDimen a op = (v, true) → v = a) :=
+  ⟨stepInt_error_unchanged a op v, stepDimen_error_unchanged a op v⟩
+
+/-- A whole program on a `\\count` register = TeX (§1236–§1238) step by step — final value and
+number of errors — provided no step is TeX's undefined `-2^31 / -1` (`runDefined`, decidable). -/
+theorem arith_program_eq_knuth (ops : List ArithOp) (a : Int) (ha : inRange32 a)
+    (hd : runDefined a ops = true) :
+    Spec.runReg Spec.stepInt a ops = some (runReg stepInt a ops) :=
+  runInt_eq_spec ops a ha hd
+
+/-- `\\multiply` and `\\divide` keep a legal dimension legal (`|d| ≤ 2^30-1`): the only way a
+`\\dimen` register leaves TeX's range is `\\advance`, which wraps silently by design. -/
+theorem multiply_divide_keep_legal (a : Int) (ha : -maxDimen ≤ a ∧ a ≤ maxDimen) (op : ArithOp)
+    (hop : ∀ b, op ≠ .advance b) :
+    -maxDimen ≤ (stepDimen a op).1 ∧ (stepDimen a op).1 ≤ maxDimen :=
+  stepDimen_legal a ha op hop
+
+example : runReg stepInt 5 [.multiply 1000000, .multiply 1000000, .advance 7, .divide 0, .divide (-2)] = (-2500003, 2) := by
+  decide
+example : runDefined 2147483647 [.advance 1, .divide (-1)] = false ∧
+    Spec.runReg Spec.stepInt 2147483647 [.advance 1, .divide (-1)] = none := by decide
+example : (stepDimen 1073741823 (.advance 1)).1 = 1073741824 := by decide
+
+/-! ## Two equivalent mutants of the print loop -/
+
+/-- The mutation sweep could not kill `delta > ONE` → `delta >= ONE` and `f <= delta` → `f < delta`
+in `display_no_units`, separately or together: they are equivalent on the whole domain. For every
+fraction `0 ≤ fr < 2^16` (hence for every scaled value) each of the four variants of the digit loop
+prints exactly the digits of the original. -/
+theorem print_loop_mutants_equivalent (ge lt : Bool) (fr : Nat) (h : fr < 65536) :
+    printFracV ge lt (fr : Int) = printFrac (fr : Int) := by
+  have := mutOK_all fr h
+  simp only [mutOK, Bool.and_eq_true, beq_iff_eq] at this
+  obtain ⟨⟨⟨h1, h2⟩, h3⟩, h4⟩ := this
+  cases ge <;> cases lt
+  · exact h1
+  · exact h3
+  · exact h2
+  · exact h4
+
+example : printFracV true true 1 = some [0, 0, 0, 0, 2] ∧ printFrac 1 = some [0, 0, 0, 0, 2] := by decide
 
 /-! ## Totality (shared with C09) -/
 
